@@ -286,6 +286,15 @@ func (ex *Exec) doCall(st *State, fr *Frame, c *ssa.CallCommon, instr ssa.Value,
 		}
 		return ex.builtin(st, fr, b, c, args, instr)
 	}
+	{
+		p := token.NoPos
+		if instr != nil {
+			p = instr.Pos()
+		} else if d != nil {
+			p = d.pos
+		}
+		ex.lockOrderCall(st, fr, c, p)
+	}
 	// gather arguments (receiver first)
 	var args []Term
 	var fnv Term
@@ -465,7 +474,7 @@ func (ex *Exec) applyCall(st *State, fr *Frame, c *ssa.CallCommon, fc *FuncContr
 			lbl = ex.fn.Name() + ".call." + lbl
 		}
 		ex.addOb(st, "pre", lbl, r.Src, pos, cv.T)
-		st.assume(cv.T)
+		st.assumeBranch(cv.T)
 	}
 	if extra := ex.fc.CallAsserts[fc.Name]; len(extra) > 0 && len(st.frames) == 1 {
 		cenv := env.child()
@@ -486,7 +495,7 @@ func (ex *Exec) applyCall(st *State, fr *Frame, c *ssa.CallCommon, fc *FuncContr
 				lbl = fmt.Sprintf("%s.at.%s.requires%d", ex.fn.Name(), shortName(fc.Name), i)
 			}
 			ex.addOb(st, "pre", lbl, r.Src, pos, cv.T)
-			st.assume(cv.T)
+			st.assumeBranch(cv.T)
 		}
 	}
 	old := st.heap.clone()
